@@ -24,7 +24,8 @@ RULE = ("kind structure: 15 interfaces (cp2k: dependency absent) x cells (tricli
         "kind units: all 17 calculator entries (exhaustive): factor, nac_factor, distance_to_A, force_to_eVperA, get_force_constant_conversion_factor vs SI re-derivation; "
         "kind endtoend: one physical crystal (cell, pair-model constants, Born charges) re-expressed in each calculator's units must give the same THz frequencies and thermal properties; "
         "kind forcesets: calculator output (vasprun.xml) with permuted/mismatched atoms must be paired correctly or refused; "
-        "non-trivial = >=2 species or >=2 atoms; distinct = (interface, cell description)")
+        "non-trivial = >=2 species or >=2 atoms; distinct = (interface, cell description); "
+        "additions of rounds 6-8: residual-force (--fz) mode faults; magnetic cells through castep/aims/abacus; kind fleur_input: user inpgen file with &factor/&shift, supercell files written from it read back")
 ASSUMPTIONS = [
     "adapters: qe '&system ibrav=0,nat,ntyp /' header; siesta ChemicalSpeciesLabel block; turbomole read with cwd = written directory; fleur '! a1' / 'atoms' trailing comments; crystal: harness parser of the .ext (fort.34) block because the interface's reader parses CRYSTAL output",
     "tolerance from the printed precision measured in each written file",
